@@ -139,6 +139,13 @@ def build(sites, read, name, layout):
     if "body" in s:
         body.append("<%% %s = 'body:%s' %%>" % (name, name))
     rd = "${show(%s)}" % name
+    decoy = DECOYS[layout["decoy"]] % {"n": name} if layout.get("decoy") else ""
+    if nl == "\r\n":
+        decoy = decoy.replace("\n", "\r\n")
+    if decoy and layout["in"] and read in ("def", "defcb", "nested", "anonblock", "namedblock", "callbody") and layout["decoy"] != "otherdef":
+        rd = decoy + rd  # inside the construct that holds the read site, just before it
+    elif decoy:
+        body.append(decoy)
     inner_loop = "loop" in s and read in ("def", "defcb", "nested", "namedblock", "anonblock")
 
     def wrap_loop(text):
@@ -241,7 +248,22 @@ def run_resolution(case, res):
     res.sample = {"binding_sites": case["items"][0][0], "read_site": case["items"][0][1]}
 
 
-LAYOUTS = [{"nl": "\n"}, {"nl": "\r\n"}, {"nl": "\n\n"}]
+# decoys: the same name bound in a scope that is *not* an enclosing scope of the read site (a local of a helper
+# function written in a <% %> block, a lambda parameter, an argument and local of an unrelated def, a class
+# attribute, a loop target inside a helper).  By Python's rules none of them is visible at the read site, so the
+# expected resolution is unchanged.  "in" places the decoy inside the def/block that holds the read site.
+DECOYS = {
+    "fnlocal": "<%%\ndef helper_():\n    k_ = lambda q_: q_\n    %(n)s = 'decoy:%(n)s'\n    return k_(%(n)s)\n%%>",
+    "lambdaparam": "<%% g_ = lambda %(n)s: %(n)s %%>",
+    "otherdef": "<%%def name=\"other_(%(n)s='decoy:%(n)s')\"><%% %(n)s = 'decoy2:%(n)s' %%></%%def>",
+    "classattr": "<%%\nclass K_:\n    %(n)s = 'decoy:%(n)s'\n%%>",
+    "fnloop": "<%%\ndef helper_():\n    def in_(a_=1, *b_):\n        return a_\n    for %(n)s in ('decoy:%(n)s',):\n        pass\n    return in_(%(n)s)\n%%>",
+}
+LAYOUTS = [{"nl": nl, "decoy": d, "in": w} for nl, d, w in [
+    ("\n", None, False), ("\r\n", None, False), ("\n\n", None, False),
+    ("\n", "fnlocal", False), ("\n", "fnlocal", True), ("\r\n", "lambdaparam", False), ("\n", "lambdaparam", True),
+    ("\n", "otherdef", False), ("\n", "classattr", False), ("\n", "classattr", True), ("\n", "fnloop", False), ("\r\n", "fnloop", True),
+]]
 
 
 # ------------------------------------------------------------------ isolation
